@@ -72,7 +72,7 @@ def check(ctx):
         idx = []
         for pi, code in enumerate(small + big):
             for p in intervals:
-                lines.append(gen.vm_line(code, cfg, poll_every=p) + " all")
+                lines.append(gen.vm_line(code, cfg, poll_every=p) + " all sorted")
                 idx.append((pi, p))
         ok, out, diag = vlib.run_harness_sharded(hb, ["analyze"], lines, timeout=1500)
         ctx.oblige("harness:analyze-unmonitored", "search", ok, diag)
@@ -102,7 +102,7 @@ def check(ctx):
                 for k in ks:
                     if k < 0:
                         continue
-                    lines.append(gen.vm_line(code, cfg, poll_every=p, stop_at=k) + " all")
+                    lines.append(gen.vm_line(code, cfg, poll_every=p, stop_at=k) + " all sorted")
                     idx.append((pi, p, k))
         ok, out, diag = vlib.run_harness_sharded(hb, ["analyze"], lines, timeout=2400)
         ctx.oblige("harness:analyze-stopped", "search", ok, diag)
